@@ -79,6 +79,14 @@ static int pick(int me, bool forced) {
   if (g_spec.strategy == S_REPLAY) {
     if (g_res.sched_used < g_spec.sched.size()) { int w = g_spec.sched[g_res.sched_used]; for (int i : en) if (i == w) return w; }
     for (int i : en) if (i != me) return i; return en[0]; }
+  if (g_spec.strategy == S_DFS && g_roi && en.size() > 1) {
+    // a non-preemptive switch (the running thread blocked or finished): which thread continues is a free decision of the search (cost 0);
+    // alternative 0 is the rotation order
+    std::vector<int> alts; for (int i : en) if (i > me) alts.push_back(i); for (int i : en) if (i <= me) alts.push_back(i);
+    size_t di = g_res.decs.size(); int choice = di < g_spec.prefix.size() ? g_spec.prefix[di] : 0; if (choice >= (int)alts.size()) choice = 0;
+    g_res.decs.push_back(Dec{(int)alts.size(), choice, 0});
+    if (g_dec_sink) { int n = g_dec_sink[0]; if (n >= 0 && n < DEC_SINK_MAX) { g_dec_sink[1 + 2 * n] = (int)alts.size(); g_dec_sink[2 + 2 * n] = choice; g_dec_sink[0] = n + 1; } else g_dec_sink[0] = -1; }
+    return alts[choice]; }
   if (g_spec.strategy == S_DFS || g_spec.strategy == S_SEQ || !g_roi) {   // deterministic rotation
     for (int i : en) if (i > me) return i; return en[0]; }
   if (g_spec.strategy == S_PCT) {
